@@ -6,7 +6,8 @@
    every granted step, and the stress profile under the OS scheduler. Lock
    fairness, parking_lot and tokio scheduling are runtime behaviours no
    executable model exhibits (partial). *)
-From MC Require Import Model.Base Model.Generated Model.Store Model.Memc Model.Conc Proofs.PC16.
+From MC Require Import Model.Base Model.Generated Model.Store Model.Memc Model.Conc Proofs.PC16 Model.PolConc Proofs.PC16p.
+From Coq Require Import ZArith.
 
 (* no atomic call ever waits for another thread *)
 Theorem C16_action_never_blocks : forall now a s, exists s' x, act now a s = (s', x).
@@ -31,6 +32,32 @@ Print Assumptions C16_step_progress.
    shared states the thread meets (whatever the others do, wherever they are parked) *)
 Theorem C16_completes_within : forall now Op (pof : Op -> prog) n (t : @thread Op) o p ss,
   th_cur t = Some (o, p) -> depth_le p n -> length ss = S n ->
-  exists v rest, th_done (own_steps now pof ss t) = th_done t ++ v :: rest.
+  exists v rest, th_done (PC16.own_steps now pof ss t) = th_done t ++ v :: rest.
 Proof. intros now Op. exact (@completes_within now Op). Qed.
 Print Assumptions C16_completes_within.
+
+(* ---- behind the eviction policy (Model/PolConc.v): retrievals that collect expired
+   records, deletes, delayed flushes (one whole-map call), immediate flushes and eviction
+   sweeps (a scan, then one removal and one counter access per key the scan accepted).
+   Whatever its calls return — scans accepting at most M keys — an operation performs at
+   most [pbound M o] atomic calls (for a store: the model's bound on the rounds of its
+   eviction loop times the cost of a sweep; that the real loop ends is what the watchdogs
+   observe, and C14_evict_terminates proves of the sequential store) ... *)
+Theorem C16_policy_programs_bounded : forall now limit M o,
+  pdepth M (pprog_of now limit o) (pbound M o).
+Proof. exact policy_programs_bounded. Qed.
+Print Assumptions C16_policy_programs_bounded.
+
+(* ... so it has returned after that many own steps plus one, in whatever shared states
+   it meets (whatever the other clients have done in between, wherever they are parked) *)
+Theorem C16_policy_operation_completes_within : forall now limit M n
+    (t : gthread paction presult pores pop) o p ss,
+  g_cur t = Some (o, p) -> pdepth M p n -> length ss = S n -> Forall (oracle_ok M) ss ->
+  exists v rest, g_done (PC16p.own_steps now limit ss t) = g_done t ++ v :: rest.
+Proof. exact policy_operation_completes_within. Qed.
+Print Assumptions C16_policy_operation_completes_within.
+
+Example C16_policy_nonvacuous :
+  pbound 3 (PoGet [x6b]) = 3%nat /\ pbound 3 (PoFlush 0) = 7%nat /\
+  oracle_ok 3 (mkP [] 1 0%Z [[[x6b]; [x6a]]]).
+Proof. split; [reflexivity|]. split; [reflexivity|]. repeat constructor. Qed.
